@@ -1,5 +1,6 @@
 import Driver.Common
 import AslModel.SockServer
+import Gen.SockGen
 /-! Model driver for C14: the summary every schedule must produce, and the acceptor that replays a
 recorded hook-point trace of the real SocketServer on the model. -/
 open Driver AslModel.SockServer
@@ -54,10 +55,12 @@ def applyEv (st : ASt) (ev : String) : Except String ASt :=
 
 def acceptTrace (sequential : Bool) (evs : List String) : String :=
   let n := (evs.filter (·.startsWith "a")).length
-  match evs.foldlM applyEv (init n sequential, false) with
+  -- the two facts the model takes from the source (regenerated: Gen/SockGen.lean)
+  match evs.foldlM applyEv (init n sequential Gen.Sock.joins Gen.Sock.skipsFailed, false) with
   | .error e => "reject: " ++ e
   | .ok (s, pend) =>
     if s.bad then "reject: server used after destruction"
+    else if s.phantom != 0 then "reject: serve() was called for a failed accept()"
     else if pend then "reject: the destructor was entered but the accept thread never ended"
     else if s.cpc == CPc.destroyed && (List.range n).all (fun c => s.st c == 7 && s.serveBegins c == 1 && s.serveEnds c == 1)
     then "accept" else "reject: at the end an accepted connection was not served exactly once and closed"
